@@ -3,116 +3,543 @@
 Decides: exactly one result slot per element on every path, in input order, returned unfiltered
 (R1); pre-check alignment (R2); call_batch / map_over_range ordering (R3); non-served elements go
 through the shared single-flight path (R4).
+
+The rules are phrased over *roles*, not spellings: a sequence is classified by where it comes from
+("the input list", "the bulk answer for the input list", "the cache's answer"), a loop by what it walks
+("one iteration per input position, in order" — `for i in range(len(xs))`, `for x in xs`, `enumerate`,
+`zip` alike), an expression by which sequence's element of the current position it denotes, a branch
+edge by the fact it establishes ("this element was a cache miss", "there is no calling frame").
 """
 import ast
+import copy
 
 from .. import astutil as A
 from ..fa import FA
+from ..loader import AnalysisError
 from .valeq import check_typed_identity
 
 RL = "runner_local"
+MUTATORS = ("sort", "reverse", "insert", "pop", "remove", "extend", "clear")
 
 
-def _one_append_per_iteration(ck, fa: FA, loop_node, list_name, rule, tag):
-    """Every path loop-head(T) -> loop-head performs exactly one <list_name>.append."""
-    cfg = fa.cfg
-    apps = [c for c in fa.calls("append") if A.dotted(A.call_recv(c)) == list_name and fa.inside(c, loop_node.ast)]
-    app_nodes = set(fa.nodes_all(apps))
-    h = loop_node.id
-    starts = [d for (d, l) in cfg.succ[h] if l == "T"]
-    # (a) at least one: walk without passing through an append node normally (its exception
-    # edges may be followed: the append did not happen)
+# =================================================================================================
+# role-based helpers (shared with c10)
+# =================================================================================================
+
+def expand_alias(fa, expr, at, depth=12, _stack=()):
+    """Like FA.expand, but a name that was updated in place (`x |= ...`, `x += ...`) after its one plain
+    assignment still expands to that assignment's value — it still denotes the same mutable object — and the
+    root may be a Store-context name (an augmented assignment's target)."""
+    bound = set()
+    for x in ast.walk(expr):
+        if isinstance(x, ast.comprehension):
+            bound |= {n.id for n in ast.walk(x.target) if isinstance(n, ast.Name)}
+        if isinstance(x, ast.Lambda):
+            bound |= {a.arg for a in x.args.args + x.args.kwonlyargs + x.args.posonlyargs}
+
+    class T(ast.NodeTransformer):
+        def visit_Name(self, n):
+            if n.id in bound or depth <= 0:
+                return n
+            ds = [d for d in fa.df.reaching(at, n.id) if d.kind != "aug"]
+            if len(ds) != 1:
+                return n
+            d = ds[0]
+            if d.kind != "assign" or d.value is None or (d.node, d.name) in _stack:
+                return n
+            return expand_alias(fa, d.value, d.node, depth - 1, _stack + ((d.node, d.name),))
+
+    e = copy.deepcopy(expr)
+    for x in ast.walk(e):
+        if isinstance(x, ast.Name):
+            x.ctx = ast.Load()
+    return T().visit(e)
+
+
+def alias_text(fa, expr, at):
+    return A.norm(expand_alias(fa, expr, at))
+
+
+def origins(fa, expr, at, _seen=None, depth=12):
+    """What `expr` (evaluated at CFG node `at`) may denote: [(leaf expression, node id)], following local names
+    through ALL their reaching plain assignments and conditional expressions through both arms.  A name bound
+    otherwise (parameter, loop / with / except / unpacking target, augmented) is its own leaf."""
+    seen = _seen if _seen is not None else set()
+    e = expr
+    if isinstance(e, ast.IfExp):
+        return origins(fa, e.body, at, seen, depth) + origins(fa, e.orelse, at, seen, depth)
+    if isinstance(e, ast.Name) and depth > 0:
+        ds = fa.df.reaching(at, e.id)
+        if ds and all(d.kind == "assign" and d.value is not None for d in ds):
+            out = []
+            for d in ds:
+                if (d.node, d.name) in seen:
+                    continue
+                seen.add((d.node, d.name))
+                out += origins(fa, d.value, d.node, seen, depth - 1)
+            return out
+    return [(e, at)]
+
+
+def ast_atoms(t, positive=True):
+    """A branch test taken with the given polarity as a list of facts: ('none', expr, b) = "(expr is None) == b",
+    ('truth', expr, b) = "bool(expr) == b".  A conjunction taken true / a disjunction taken false splits into its
+    parts; a conjunction taken false establishes nothing about its parts (it stays one opaque fact)."""
+    if isinstance(t, ast.UnaryOp) and isinstance(t.op, ast.Not):
+        return ast_atoms(t.operand, not positive)
+    if isinstance(t, ast.BoolOp):
+        if (isinstance(t.op, ast.And) and positive) or (isinstance(t.op, ast.Or) and not positive):
+            out = []
+            for v in t.values:
+                out += ast_atoms(v, positive)
+            return out
+        return [("truth", t, positive)]
+    if isinstance(t, ast.Compare) and len(t.ops) == 1 and isinstance(t.ops[0], (ast.Is, ast.IsNot, ast.Eq, ast.NotEq)):
+        l, r = t.left, t.comparators[0]
+        if A.is_none(l):
+            l, r = r, l
+        if A.is_none(r):
+            is_ = isinstance(t.ops[0], (ast.Is, ast.Eq))
+            return [("none", l, positive if is_ else not positive)]
+    return [("truth", t, positive)]
+
+
+def edges_implying(fa, pred):
+    """{(test node id, 'T'|'F')}: the branch edges on which some established fact satisfies
+    pred(kind, expr, value, node id)."""
+    out = set()
+    for n in fa.cfg.nodes:
+        if n.kind != "test" or n.ast is None:
+            continue
+        for lab, pos in (("T", True), ("F", False)):
+            for (k, e, b) in ast_atoms(n.ast, pos):
+                try:
+                    if pred(k, e, b, n.id):
+                        out.add((n.id, lab))
+                        break
+                except AnalysisError:
+                    continue
+    return out
+
+
+def absent_edges(fa, is_it):
+    """Edges establishing that the object `is_it(expr, node)` recognises is absent (None / falsy)."""
+    return edges_implying(fa, lambda k, e, b, n: ((k == "none" and b) or (k == "truth" and not b)) and is_it(e, n))
+
+
+def present_edges(fa, is_it):
+    return edges_implying(fa, lambda k, e, b, n: ((k == "none" and not b) or (k == "truth" and b)) and is_it(e, n))
+
+
+def not_edges(edges):
+    return lambda s, d, l: (s, l) not in edges
+
+
+FRAME = "CallStack.get().get_calling_frame()"
+
+
+def is_calling_frame(fa):
+    def f(e, n):
+        return fa.xnorm(e, n) == FRAME
+    return f
+
+
+def all_defs(fa, name):
+    """Every binding of a local name in the function (one per binding statement)."""
+    out = {}
+    for ds in fa.df.gen.values():
+        for d in ds:
+            if d.name == name:
+                out.setdefault(id(d.stmt), d)
+    return list(out.values())
+
+
+def heads_of(fa, loop_ast):
+    """All CFG nodes of one `for` statement (flag threading may have split it)."""
+    live = fa.cfg.reachable_nodes()
+    return [n.id for n in fa.cfg.nodes if n.kind == "for" and n.ast is loop_ast and n.id in live]
+
+
+def body_starts(fa, heads):
+    return [d for h in heads for (d, l) in fa.cfg.succ[h] if l == "T"]
+
+
+class Seqs:
+    """Classifies sequences of one function by origin.  role(e, at) is None (unknown / not aligned with the input)
+    or the name of a sequence that has exactly one element per input position, in input order:
+    'input' (the input parameter itself, possibly wrapped for progress display / copied with list()),
+    'blank' ([const] * len(aligned)), 'aligned' (an unfiltered comprehension over an aligned sequence), or whatever
+    `call_role(seqs, call, at)` answers for a call (e.g. 'bulk' for the bulk store answer)."""
+
+    WRAPPERS = ("tqdm", "list", "tuple")
+
+    def __init__(self, fa, param, call_role=None):
+        self.fa = fa
+        self.param = param
+        self.call_role = call_role
+        self._busy = set()
+
+    @staticmethod
+    def _merge(roles):
+        roles = set(roles)
+        if None in roles or not roles:
+            return None
+        if len(roles) > 1:
+            roles.discard("blank")
+        return roles.pop() if len(roles) == 1 else "aligned"
+
+    def unwrap(self, e, names=WRAPPERS):
+        while isinstance(e, ast.Call) and A.call_attr(e) in names and len(e.args) == 1 and not isinstance(e.args[0], ast.Starred):
+            e = e.args[0]
+        return e
+
+    def role(self, e, at, _seen=frozenset()):
+        key = (id(e), at)
+        if key in self._busy:
+            return None
+        self._busy.add(key)
+        try:
+            return self._role(e, at, _seen)
+        finally:
+            self._busy.discard(key)
+
+    def _role(self, e, at, _seen):
+        fa = self.fa
+        if isinstance(e, ast.Call) and self.call_role:
+            r = self.call_role(self, e, at)
+            if r:
+                return r
+        e = self.unwrap(e)
+        if isinstance(e, ast.Name):
+            ds = fa.df.reaching(at, e.id)
+            roles = []
+            for d in ds:
+                if d.kind == "param":
+                    roles.append("input" if e.id == self.param else None)
+                elif d.kind == "assign" and d.value is not None:
+                    if (d.node, d.name) in _seen:
+                        continue
+                    roles.append(self.role(d.value, d.node, _seen | {(d.node, d.name)}))
+                else:
+                    roles.append(None)
+            return self._merge(roles)
+        if isinstance(e, ast.IfExp):
+            return self._merge([self.role(e.body, at, _seen), self.role(e.orelse, at, _seen)])
+        if isinstance(e, ast.BinOp) and isinstance(e.op, ast.Mult):
+            for (l, r) in ((e.left, e.right), (e.right, e.left)):
+                if isinstance(l, ast.List) and len(l.elts) == 1 and isinstance(l.elts[0], ast.Constant) \
+                        and isinstance(r, ast.Call) and A.call_attr(r) == "len" and len(r.args) == 1 and self.role(r.args[0], at, _seen):
+                    return "blank"
+            return None
+        if isinstance(e, ast.ListComp) and len(e.generators) == 1 and not e.generators[0].ifs:
+            p = pos_iter(self, e.generators[0].target, e.generators[0].iter, at)
+            if p is None:
+                return None
+            return (self.call_role(self, e, at) if self.call_role else None) or "aligned"
+        if isinstance(e, ast.Call) and self.call_role:
+            return self.call_role(self, e, at)
+        return None
+
+
+class PosIter:
+    """An iteration that visits every input position once, in input order.  pos = the name holding the position
+    (or None), elems = {name: role of the sequence whose element of the current position it holds}."""
+
+    def __init__(self, loop_ast=None):
+        self.pos = None
+        self.elems = {}
+        self.loop_ast = loop_ast  # the For statement (None: a comprehension's generator)
+
+    def _bound_here(self, fa, name, at):
+        if self.loop_ast is None:
+            return True
+        ds = fa.df.reaching(at, name)
+        return bool(ds) and all(d.kind == "for" and fa.cfg.node(d.node).ast is self.loop_ast for d in ds)
+
+    def elem_role(self, seqs, e, at, _depth=0):
+        """Role of the sequence whose element at the current position `e` denotes (None: something else)."""
+        fa = seqs.fa
+        if isinstance(e, ast.Name):
+            if e.id in self.elems and self._bound_here(fa, e.id, at):
+                return self.elems[e.id]
+            if self.loop_ast is None:
+                return None
+            ds = fa.df.reaching(at, e.id)
+            if ds and _depth < 8 and all(d.kind == "assign" and d.value is not None for d in ds):
+                rs = {self.elem_role(seqs, d.value, d.node, _depth + 1) for d in ds}
+                return rs.pop() if len(rs) == 1 else None
+            return None
+        if isinstance(e, ast.Subscript) and isinstance(e.slice, ast.Name) and self.pos is not None and e.slice.id == self.pos \
+                and self._bound_here(fa, self.pos, at):
+            return seqs.role(e.value, at)
+        return None
+
+
+def pos_iter(seqs, target, it, at, loop_ast=None):
+    """PosIter for `for target in it` / a comprehension generator, or None when the iteration is not "once per
+    input position, in input order"."""
+    it = seqs.unwrap(it, ("tqdm",))
+    p = PosIter(loop_ast)
+    if isinstance(it, ast.Call) and A.call_attr(it) == "range" and isinstance(it.func, ast.Name) and not it.keywords:
+        a = it.args
+        if len(a) == 2 and isinstance(a[0], ast.Constant) and a[0].value == 0:
+            a = a[1:]
+        if len(a) == 1 and isinstance(a[0], ast.Call) and A.call_attr(a[0]) == "len" and len(a[0].args) == 1 \
+                and seqs.role(a[0].args[0], at) and isinstance(target, ast.Name):
+            p.pos = target.id
+            return p
+        return None
+    if isinstance(it, ast.Call) and A.call_attr(it) == "enumerate" and isinstance(it.func, ast.Name) and it.args:
+        start = A.arg_or_kw(it, 1, "start")
+        if start is not None and not (isinstance(start, ast.Constant) and start.value == 0):
+            return None
+        if not (isinstance(target, ast.Tuple) and len(target.elts) == 2 and isinstance(target.elts[0], ast.Name)):
+            return None
+        sub = pos_iter(seqs, target.elts[1], it.args[0], at, loop_ast)
+        if sub is None or sub.pos is not None:
+            return None
+        sub.pos = target.elts[0].id
+        return sub
+    if isinstance(it, ast.Call) and A.call_attr(it) == "zip" and isinstance(it.func, ast.Name) and it.args and not it.keywords:
+        if not (isinstance(target, ast.Tuple) and len(target.elts) == len(it.args)):
+            return None
+        for t, s in zip(target.elts, it.args):
+            r = seqs.role(s, at)
+            if r is None or not isinstance(t, ast.Name):
+                return None
+            p.elems[t.id] = r
+        return p
+    r = seqs.role(it, at)
+    if r is not None and isinstance(target, ast.Name):
+        p.elems[target.id] = r
+        return p
+    return None
+
+
+def position_loops(fa, seqs):
+    """[(For statement, PosIter)] for the function's own `for` statements that walk the input positions."""
+    out = []
     seen = set()
-    stack = list(starts)
-    miss = False
+    for n in fa.cfg.nodes:
+        if n.kind != "for" or id(n.ast) in seen or not fa.nodes(n.ast):
+            continue
+        seen.add(id(n.ast))
+        p = pos_iter(seqs, n.ast.target, n.ast.iter, fa.nodes(n.ast)[0], n.ast)
+        if p is not None:
+            out.append((n.ast, p))
+    return out
+
+
+def enclosing_position(fa, loops, node):
+    """The innermost position loop (For, PosIter) lexically around `node`."""
+    lp = fa.enclosing(node, ast.For)
+    while lp is not None:
+        for (l, p) in loops:
+            if l is lp:
+                return (l, p)
+        lp = fa.enclosing(lp, ast.For)
+    return None
+
+
+def iteration_counts(fa, heads, nodes):
+    """(may_skip, may_repeat): can an iteration reach the next one without executing one of `nodes` to completion /
+    execute two of them."""
+    cfg = fa.cfg
+    H = set(heads)
+    nodes = set(nodes)
+    seen = set()
+    stack = body_starts(fa, heads)
+    skip = False
     while stack:
         n = stack.pop()
         if n in seen:
             continue
         seen.add(n)
-        if n == h:
-            miss = True
+        if n in H:
+            skip = True
             break
         for (d, l) in cfg.succ[n]:
-            if n in app_nodes and l != "exc":
+            if n in nodes and l != "exc":
                 continue
             stack.append(d)
-    ck.paths_enumerated += 1
-    ck.ob(rule, fa.key(loop_node.ast, tag + "-at-least-one"), not miss and bool(apps),
-          "every iteration appends a result" if not miss and apps else
-          "an iteration can reach the next element without appending a result: later results shift to wrong positions", fa.where(loop_node.ast))
-    # (b) at most one: after a completed append no other append before the loop head
     twice = None
-    for a in app_nodes:
+    for a in nodes:
         seen = set()
         stack = [d for (d, l) in cfg.succ[a] if l != "exc"]
         while stack:
             n = stack.pop()
-            if n in seen or n == h:
+            if n in seen or n in H:
                 continue
             seen.add(n)
-            if n in app_nodes:
+            if n in nodes:
                 twice = n
                 break
-            for (d, l) in cfg.succ[n]:
-                stack.append(d)
-    ck.ob(rule, fa.key(loop_node.ast, tag + "-at-most-one"), twice is None,
-          "no iteration appends twice" if twice is None else
-          "an iteration can append two results for one element", fa.where(loop_node.ast))
+            stack.extend(d for (d, l) in cfg.succ[n])
+    return skip, twice is not None
+
+
+def exactly_on(fa, heads, nodes, on_edges, off_edges):
+    """Within one iteration, `nodes` execute only after an edge of `on_edges` was taken, and every path to the next
+    iteration either took an edge of `off_edges` or executed one of `nodes`."""
+    H = set(heads)
+    st = body_starts(fa, heads)
+    r1 = fa.cfg.reach(st, removed=H, edge_ok=not_edges(on_edges))
+    if set(nodes) & r1:
+        return False
+    r2 = fa.cfg.reach(st, removed=set(nodes), edge_ok=not_edges(off_edges))
+    return not (H & r2)
+
+
+def per_element(seqs, expr, at, _depth=0):
+    """If `expr` is a list holding exactly one element per input position, in input order — an unfiltered
+    comprehension over an aligned sequence, or an empty list filled by exactly one append per iteration of a position
+    loop and not touched otherwise — the list of (element expression, node id, PosIter); else None."""
+    fa = seqs.fa
+    e = seqs.unwrap(expr, ("list", "tuple"))
+    if isinstance(e, (ast.ListComp, ast.GeneratorExp)) and (isinstance(e, ast.ListComp) or e is not expr):
+        if len(e.generators) != 1 or e.generators[0].ifs:
+            return None
+        p = pos_iter(seqs, e.generators[0].target, e.generators[0].iter, at)
+        return [(e.elt, at, p)] if p is not None else None
+    if not isinstance(e, ast.Name) or _depth > 6:
+        return None
+    ds = [d for d in fa.df.reaching(at, e.id)]
+    if len(ds) != 1 or ds[0].kind != "assign" or ds[0].value is None:
+        return None
+    d = ds[0]
+    v = d.value
+    if not (isinstance(v, ast.List) and not v.elts):
+        return per_element(seqs, v, d.node, _depth + 1)
+    name = e.id
+    if len(all_defs(fa, name)) != 1 or name in fa.df.params:
+        return None
+    touched = [c for c in fa.calls() if A.dotted(A.call_recv(c)) == name]
+    if any(A.call_attr(c) != "append" for c in touched):
+        return None
+    if any(isinstance(s, (ast.Assign, ast.AugAssign, ast.Delete)) and any(
+            isinstance(t, ast.Subscript) and A.dotted(t.value) == name for t in (s.targets if isinstance(s, (ast.Assign, ast.Delete)) else [s.target]))
+            for s in fa.stmts((ast.Assign, ast.AugAssign, ast.Delete))):
+        return None
+    apps = [c for c in touched if len(c.args) == 1 and fa.nodes(c)]
+    loops = position_loops(fa, seqs)
+    homes = {id(enclosing_position(fa, loops, c)[0]) if enclosing_position(fa, loops, c) else None for c in apps}
+    if not apps or len(homes) != 1 or None in homes:
+        return None
+    loop, p = enclosing_position(fa, loops, apps[0])
+    if fa.enclosing(loop, (ast.For, ast.While)) is not None:
+        return None
+    use_stmt = fa.cfg.node(at).ast
+    if use_stmt is not None and fa.inside(use_stmt, loop):
+        return None
+    skip, twice = iteration_counts(fa, heads_of(fa, loop), fa.nodes_all(apps))
+    if skip or twice:
+        return None
+    return [(c.args[0], fa.nodes(c)[0], p) for c in apps]
+
+
+# =================================================================================================
+# R1
+# =================================================================================================
+
+def _one_append_per_iteration(ck, fa: FA, loop_ast, list_name, rule, tag):
+    """Every path loop-head(T) -> loop-head performs exactly one <list_name>.append."""
+    apps = [c for c in fa.calls("append") if A.dotted(A.call_recv(c)) == list_name and fa.inside(c, loop_ast)]
+    miss, twice = iteration_counts(fa, heads_of(fa, loop_ast), fa.nodes_all(apps))
+    ck.paths_enumerated += 1
+    ck.ob(rule, fa.key(loop_ast, tag + "-at-least-one"), not miss and bool(apps),
+          "every iteration appends a result" if not miss and apps else
+          "an iteration can reach the next element without appending a result: later results shift to wrong positions", fa.where(loop_ast))
+    ck.ob(rule, fa.key(loop_ast, tag + "-at-most-one"), not twice,
+          "no iteration appends twice" if not twice else
+          "an iteration can append two results for one element", fa.where(loop_ast))
     return apps
 
 
-def _is_input_seq(fa, expr, at, param):
-    """Does `expr` (a loop's sequence) denote the input list itself, in order?"""
-    e = expr
-    if isinstance(e, ast.Call) and A.call_attr(e) == "tqdm" and e.args:
-        e = e.args[0]
-    if isinstance(e, ast.Name) and e.id == param:
-        return True
-    if isinstance(e, ast.Name):
-        ds = fa.df.reaching(at, e.id)
-        return bool(ds) and all(d.value is not None and d.kind == "assign" and _is_input_seq(fa, d.value, d.node, param) for d in ds)
-    return False
-
-
-def _index_is_input_position(fa, idx_expr, stmt, param):
-    """Is `idx_expr` (in `results[idx_expr] = ...`) a position in the input list?"""
+def _index_is_input_position(fa, seqs, loops, idx_expr, stmt):
+    """Is `idx_expr` (in `results[idx_expr] = ...`) the element's position in the input list?"""
     if isinstance(idx_expr, ast.Name):
-        loop = fa.enclosing(stmt, ast.For)
-        while loop is not None:
-            tg = loop.target
-            it = loop.iter
-            nodes = fa.nodes(loop)
-            at = nodes[0] if nodes else fa.cfg.entry
-            if isinstance(tg, ast.Tuple) and tg.elts and isinstance(tg.elts[0], ast.Name) and tg.elts[0].id == idx_expr.id \
-                    and isinstance(it, ast.Call) and A.call_attr(it) == "enumerate" and it.args:
-                return _is_input_seq(fa, it.args[0], at, param)
-            if isinstance(tg, ast.Name) and tg.id == idx_expr.id and isinstance(it, ast.Call) and A.call_attr(it) == "range":
-                return A.norm(it) in ("range(0, len(%s))" % param, "range(len(%s))" % param)
-            loop = fa.enclosing(loop, ast.For)
+        lp = fa.enclosing(stmt, ast.For)
+        while lp is not None:
+            names = {n.id for n in ast.walk(lp.target) if isinstance(n, ast.Name)}
+            if idx_expr.id in names:
+                for (l, p) in loops:
+                    if l is lp:
+                        return p.pos == idx_expr.id and p._bound_here(fa, idx_expr.id, fa.nodes(stmt)[0])
+                return False
+            lp = fa.enclosing(lp, ast.For)
         return False
     if isinstance(idx_expr, ast.Subscript) and isinstance(idx_expr.value, ast.Name):
         # positions[j] where positions = [i for i in range(len(param)) if ...]
+        def positions(d):
+            if not (isinstance(d.value, ast.ListComp) and len(d.value.generators) == 1):
+                return False
+            p_ = pos_iter(seqs, d.value.generators[0].target, d.value.generators[0].iter, d.node)
+            return p_ is not None and p_.pos is not None and A.norm(d.value.elt) == p_.pos
         for i in fa.nodes(stmt):
             ds = fa.df.reaching(i, idx_expr.value.id)
-            if ds and all(isinstance(d.value, ast.ListComp) and A.norm(d.value.generators[0].iter) in ("range(0, len(%s))" % param, "range(len(%s))" % param)
-                          and A.norm(d.value.elt) == A.norm(d.value.generators[0].target) for d in ds):
+            if ds and all(positions(d) for d in ds):
                 return True
     return False
 
 
-def _check_index_fills(ck, fa, R, param, result_name, tag):
+def _check_index_fills(ck, fa, seqs, loops, R, result_name, tag):
     fills = []
     for st in fa.stmts(ast.Assign):
         for t in st.targets:
-            if isinstance(t, ast.Subscript) and isinstance(t.value, ast.Name) and t.value.id == result_name:
+            if isinstance(t, ast.Subscript) and isinstance(t.value, ast.Name) and t.value.id == result_name and fa.nodes(st):
                 fills.append((st, t.slice))
     for (st, idx) in fills:
-        ok = _index_is_input_position(fa, idx, st, param)
+        ok = _index_is_input_position(fa, seqs, loops, idx, st)
         ck.ob(R, fa.key(st, tag + "-slot-index"), ok, "the slot index is the element's position in the input" if ok else
               "`%s` fills slot `%s`, which is not the element's position in the input list (it counts another sequence): results are "
               "attributed to the wrong calls" % (A.short(st, 50), A.norm(idx)), fa.where(st))
     return fills
+
+
+def batch_call_role(seqs, e, at):
+    """'bulk': the store's answer to a bulk query for exactly the input elements' references, in input order."""
+    if isinstance(e, ast.Call) and A.call_attr(e) == "get_mementos" and len(e.args) == 1 and not e.keywords:
+        if precheck_elements_ok(seqs, e.args[0], at):
+            return "bulk"
+    return None
+
+
+def precheck_elements_ok(seqs, arg, at):
+    elts = per_element(seqs, arg, at)
+    return bool(elts) and all(
+        isinstance(x, ast.Call) and A.call_attr(x) == "fn_reference_with_arg_hash" and not x.args and not x.keywords
+        and p.elem_role(seqs, A.call_recv(x), n) == "input" for (x, n, p) in elts)
+
+
+def batch_seqs(br):
+    return Seqs(br, "fn_reference_with_args", batch_call_role)
+
+
+def _fill_sites(fa, res_name):
+    """[(statement node ids, value expression)] for every statement that puts a value into the result list."""
+    out = []
+    for c in fa.calls("append"):
+        if A.dotted(A.call_recv(c)) == res_name and len(c.args) == 1 and fa.nodes(c):
+            out.append((fa.nodes(c), c.args[0]))
+    for st in fa.stmts(ast.Assign):
+        if any(isinstance(t, ast.Subscript) and A.dotted(t.value) == res_name for t in st.targets) and fa.nodes(st):
+            out.append((fa.nodes(st), st.value))
+    return out
+
+
+def result_name(fa):
+    """The local a function returns as its result list (its name does not matter)."""
+    rets = fa.returns()
+    names = sorted({r.value.id for r in rets if isinstance(r.value, ast.Name)})
+    return names[0] if len(names) == 1 else "results"
+
+
+def result_loops(fa, ploops, res_name, also=()):
+    """The outermost position loops that put values into the result list (or contain one of the `also` nodes)."""
+    marks = [c for c in fa.calls("append") if A.dotted(A.call_recv(c)) == res_name]
+    marks += [st for st in fa.stmts(ast.Assign) if any(isinstance(t, ast.Subscript) and A.dotted(t.value) == res_name for t in st.targets)]
+    marks += list(also)
+    return [(l, p) for (l, p) in ploops if fa.enclosing(l, ast.For) is None and any(fa.inside(m, l) for m in marks)]
 
 
 def check_slots(ck, R1):
@@ -121,93 +548,171 @@ def check_slots(ck, R1):
     ck.rule(R1, "one slot per element: every path through one iteration of the batch loop (and of the cache/store merge) "
                 "fills exactly one result slot, at the element's input position; the list is returned unfiltered and unsorted", 5)
     br = FA(ck, RL + ".LocalRunnerBackend.batch_run")
-    inp = "fn_reference_with_args"
+    seqs = batch_seqs(br)
     # the result list is whatever local batch_run returns (its name does not matter)
-    rets0 = br.returns()
-    RES = rets0[0].value.id if len(rets0) == 1 and isinstance(rets0[0].value, ast.Name) else "results"
-    fills = _check_index_fills(ck, br, R1, inp, RES, "batch")
-    loops = [n for n in br.cfg.nodes if n.kind == "for" and isinstance(n.ast.iter, ast.Call) and A.call_attr(n.ast.iter) == "enumerate"
-             and n.ast.iter.args and _is_input_seq(br, n.ast.iter.args[0], n.id, inp)]
+    RES = result_name(br)
+    ploops = position_loops(br, seqs)
+    fills = _check_index_fills(ck, br, seqs, ploops, R1, RES, "batch")
+    loops = result_loops(br, ploops, RES)
     if len(loops) != 1:
         ck.ob(R1, br.key(None, "batch-loop"), False, "batch_run has %d loops enumerating the input list" % len(loops), br.where())
         return None, br
-    loop = loops[0]
+    loop_ast, pit = loops[0]
+    heads = heads_of(br, loop_ast)
+    loop = br.cfg.node(heads[0])
     if not fills:
-        _one_append_per_iteration(ck, br, loop, RES, R1, "batch")
+        _one_append_per_iteration(ck, br, loop_ast, RES, R1, "batch")
     else:
         # indexed form: every iteration assigns its slot or hands the element on unchanged; an
         # element that is deferred must be filled by a later loop at its own position (checked above)
         appends = [c for c in br.calls("append") if A.dotted(A.call_recv(c)) == RES]
-        ck.ob(R1, br.key(loop.ast, "batch-no-mixed-forms"), not appends, "slots are filled by index only" if not appends else
-              "results are filled both by index and by append", br.where(loop.ast))
+        ck.ob(R1, br.key(loop_ast, "batch-no-mixed-forms"), not appends, "slots are filled by index only" if not appends else
+              "results are filled both by index and by append", br.where(loop_ast))
     rets = br.returns()
     okr = len(rets) == 1 and isinstance(rets[0].value, ast.Name)
     ck.ob(R1, br.key(None, "returned-as-is"), okr, "results are returned unfiltered, in slot order" if okr else
           "batch_run does not return the plain results list", br.where())
-    muts = [c for c in br.calls() if A.dotted(A.call_recv(c)) == RES and A.call_attr(c) in ("sort", "reverse", "insert", "pop", "remove", "extend", "clear")]
+    muts = [c for c in br.calls() if A.dotted(A.call_recv(c)) == RES and A.call_attr(c) in MUTATORS]
     ck.ob(R1, br.key(None, "no-reordering"), not muts, "results is only filled, never reordered" if not muts else
           "results is reordered or edited (%s)" % A.short(muts[0], 40), br.where(muts[0] if muts else None))
-    # the element handler turns an exception into that element's slot
+    # the element handler turns an exception (of any class) into that element's slot: from the `except Exception`
+    # head of the try around memento_run_local, every path to the next element stores the caught exception
     trs = [t for t in br.stmts(ast.Try) if any(A.call_attr(c) == "memento_run_local" for b in t.body for c in A.calls_in(b))]
     okh = False
+    sites = _fill_sites(br, RES)
     for t in trs:
         for h in t.handlers:
             if h.type is not None and A.norm(h.type) == "Exception" and h.name:
-                st_ = [n for n in A.walk_local(h) if (isinstance(n, ast.Call) and A.call_attr(n) == "append" and n.args and A.norm(n.args[0]) == h.name)
-                       or (isinstance(n, ast.Assign) and isinstance(n.targets[0], ast.Subscript) and A.norm(n.targets[0].value) == RES and A.norm(n.value) == h.name)]
-                if st_:
+                hn = [i for i in br.cfg.nodes_of(h) if i in br.cfg.reachable_nodes()]
+                stores = set()
+                for (ids, val) in sites:
+                    for i in ids:
+                        if "exc:Exception" in br.df.deps(val, i):
+                            stores.add(i)
+                r = br.cfg.reach(hn, removed=stores)
+                if hn and stores and not (set(heads) & r) and br.cfg.exit not in r:
                     okh = True
-    ck.ob(R1, br.key(loop.ast, "failure-in-slot"), okh, "a failing element's exception (of any class) is stored in its own slot" if okh else
-          "an element's exception is not caught as `Exception` and stored in its slot: an error raised while running one element aborts or shifts the batch", br.where(loop.ast))
-    # ---- merge in get_mementos
+    ck.ob(R1, br.key(loop_ast, "failure-in-slot"), okh, "a failing element's exception (of any class) is stored in its own slot" if okh else
+          "an element's exception is not caught as `Exception` and stored in its slot: an error raised while running one element aborts or shifts the batch", br.where(loop_ast))
+    ck.run(_check_merge, ck, R1)
+    return (loop, loop_ast, pit, seqs), br
+
+
+def merge_call_role(seqs, e, at):
+    """'cache': the memory cache's answer for the input list (one slot per element, None on a miss)."""
+    if isinstance(e, ast.Call) and A.call_attr(e) == "get_mementos" and len(e.args) == 1 and not e.keywords \
+            and A.call_recv(e) is not None and seqs.fa.xnorm(A.call_recv(e), at) == "self._memory_cache" and seqs.role(e.args[0], at) == "input":
+        return "cache"
+    return None
+
+
+def _check_merge(ck, R1):
+    """The cache/store merge of StorageBackendBase.get_mementos."""
     gm = FA(ck, "storage_base.StorageBackendBase.get_mementos")
-    # roles: RESG = the returned list; QR = what the metadata source answered for QF; QF = the list of
-    # misses; CACHE = the per-position cache answers; the cursor is the counter indexing QR
-    gr = gm.returns()
-    rnames = sorted({r.value.id for r in gr if isinstance(r.value, ast.Name)})
-    RESG = rnames[0] if len(rnames) == 1 else "results"
-    qcalls = [c for c in gm.calls("get_mementos") if A.norm(A.call_recv(c)) == "self._metadata_source"]
+    seqs = Seqs(gm, "fns", merge_call_role)
+    # roles: RESG = the returned list; the store answer = what the metadata source answered for the list of misses;
+    # 'cache' = the per-position cache answers; the cursor is the counter indexing the store answer
+    RESG = result_name(gm)
+    qcalls = [c for c in gm.calls("get_mementos") if gm.nodes(c) and A.call_recv(c) is not None and gm.xnorm(A.call_recv(c), gm.nodes(c)[0]) == "self._metadata_source"]
     gm.some(qcalls, "metadata-source get_mementos call")
-    bound = [c for c in qcalls if isinstance(gm.stmt_of(c), ast.Assign) and gm.stmt_of(c).value is c and isinstance(gm.stmt_of(c).targets[0], ast.Name)]
-    qcall = bound[0] if len(bound) == 1 else None
-    QF = qcall.args[0].id if qcall is not None and qcall.args and isinstance(qcall.args[0], ast.Name) else None
-    QR = gm.stmt_of(qcall).targets[0].id if qcall is not None else None
-    ccalls = [c for c in gm.calls("get_mementos") if A.norm(A.call_recv(c)) == "self._memory_cache"]
-    cst = gm.stmt_of(ccalls[0]) if ccalls else None
-    CACHE = cst.targets[0].id if isinstance(cst, ast.Assign) and isinstance(cst.targets[0], ast.Name) else None
-    gfills = _check_index_fills(ck, gm, R1, "fns", RESG, "merge")
-    mloops = [n for n in gm.cfg.nodes if n.kind == "for" and not isinstance(gm.pm.get(n.ast), ast.comprehension) and A.norm(n.ast.iter) in ("range(0, len(fns))", "range(len(fns))")]
-    if not gfills:
-        if len(mloops) != 1:
-            ck.ob(R1, gm.key(None, "merge-loop"), False, "get_mementos has no single merge loop over the input positions", gm.where())
+
+    def is_store_answer(e, at):
+        lv = origins(gm, e, at)
+        return bool(lv) and all(x in qcalls for (x, _n) in lv)
+
+    ploops = position_loops(gm, seqs)
+    gfills = _check_index_fills(ck, gm, seqs, ploops, R1, RESG, "merge")
+    if gfills:
+        return
+    mloops = result_loops(gm, ploops, RESG)
+    if len(mloops) != 1:
+        ck.ob(R1, gm.key(None, "merge-loop"), False, "get_mementos has no single merge loop over the input positions", gm.where())
+        return
+    ml, pit = mloops[0]
+    heads = heads_of(gm, ml)
+    _one_append_per_iteration(ck, gm, ml, RESG, R1, "merge")
+
+    def is_cache_elem(e, n):
+        return pit.elem_role(seqs, e, n) == "cache"
+
+    miss_edges = {(s, l) for (s, l) in absent_edges(gm, is_cache_elem) if gm.inside(gm.cfg.node(s).ast, ml)}
+    hit_edges = {(s, l) for (s, l) in present_edges(gm, is_cache_elem) if gm.inside(gm.cfg.node(s).ast, ml)}
+    uses = [n for n in A.walk_local(ml) if isinstance(n, ast.Subscript) and isinstance(n.ctx, ast.Load) and gm.nodes(n)
+            and is_store_answer(n.value, gm.nodes(n)[0])]
+    cursors = {n.slice.id if isinstance(n.slice, ast.Name) else None for n in uses}
+    oki = len(cursors) == 1 and None not in cursors and bool(miss_edges)
+    if not uses and miss_edges:
+        # the store answer consumed through an iterator made once before the loop: next(it) is read + advance in one
+        def is_answer_iter(e, at):
+            lv = origins(gm, e, at)
+            return len(lv) == 1 and isinstance(lv[0][0], ast.Call) and isinstance(lv[0][0].func, ast.Name) and lv[0][0].func.id == "iter" \
+                and len(lv[0][0].args) == 1 and is_store_answer(lv[0][0].args[0], lv[0][1]) and not gm.inside(lv[0][0], ml) \
+                and gm.enclosing(lv[0][0], (ast.For, ast.While)) is None
+        nexts = [c for c in gm.calls("next") if isinstance(c.func, ast.Name) and c.args and gm.nodes(c) and is_answer_iter(c.args[0], gm.nodes(c)[0])]
+        others = [c for c in nexts if not gm.inside(c, ml) or not gm.unconditional(c)]
+        if nexts and not others:
+            nn = gm.nodes_all(nexts)
+            oki = exactly_on(gm, heads, nn, miss_edges, hit_edges) and not iteration_counts(gm, heads, nn)[1]
+            ck.paths_enumerated += 2
+    elif oki:
+        cursor = cursors.pop()
+        binds = all_defs(gm, cursor)
+        incs = [d.stmt for d in binds if d.kind == "aug" and isinstance(d.stmt.op, ast.Add) and A.norm(d.stmt.value) == "1" and gm.inside(d.stmt, ml)]
+        inits = [d.stmt for d in binds if d.kind == "assign" and isinstance(d.value, ast.Constant) and type(d.value.value) is int and d.value.value == 0
+                 and gm.enclosing(d.stmt, (ast.For, ast.While)) is None]
+        oki = bool(incs) and bool(inits) and len(incs) + len(inits) == len(binds) and cursor not in gm.df.params
+        if oki:
+            inc_nodes = gm.nodes_all(incs)
+            use_nodes = set(gm.nodes_all(uses))
+            # the cursor advances on a miss, only on a miss, once, and after the store answer was read at it
+            oki = exactly_on(gm, heads, inc_nodes, miss_edges, hit_edges)
+            _skip, twice = iteration_counts(gm, heads, inc_nodes)
+            after = gm.cfg.reach([d for i in inc_nodes for (d, l) in gm.cfg.succ[i] if l != "exc"], removed=set(heads))
+            oki = oki and not twice and not (use_nodes & after)
+            # and starts at zero when the loop is entered
+            for h in heads:
+                ent = [d for d in gm.df.reaching(h, cursor) if not (d.stmt is not None and gm.inside(d.stmt, ml))]
+                oki = oki and bool(ent) and all(d.stmt in inits for d in ent)
+            ck.paths_enumerated += 3
+    ck.ob(R1, gm.key(None, "miss-counter"), oki, "the store-result cursor advances exactly on cache misses" if oki else
+          "the cursor into the store results does not advance exactly once per cache miss: results are attributed to the wrong calls", gm.where())
+    # the store is asked for exactly the misses, in input order
+    okq = all(c.args and not c.keywords for c in qcalls)
+    for c in qcalls:
+        if not okq:
+            break
+        lv = origins(gm, c.args[0], gm.nodes(c)[0])
+        okq = len(lv) == 1
+        if not okq:
+            break
+        (qf, qat) = lv[0]
+        if isinstance(qf, ast.ListComp) and len(qf.generators) == 1:
+            g_ = qf.generators[0]
+            p = pos_iter(seqs, g_.target, g_.iter, qat)
+            okq = p is not None and p.elem_role(seqs, qf.elt, qat) == "input" and len(g_.ifs) == 1
+            if okq:
+                facts = ast_atoms(g_.ifs[0], True)
+                okq = len(facts) == 1 and ((facts[0][0] == "none" and facts[0][2]) or (facts[0][0] == "truth" and not facts[0][2])) \
+                    and p.elem_role(seqs, facts[0][1], qat) == "cache"
+        elif isinstance(qf, ast.List) and not qf.elts and isinstance(c.args[0], ast.Name):
+            # filled by a loop: appended to exactly on the misses of a position loop, with the input element
+            name = c.args[0].id
+            touched = [x for x in gm.calls() if A.dotted(A.call_recv(x)) == name]
+            apps = [x for x in touched if A.call_attr(x) == "append" and len(x.args) == 1 and gm.nodes(x)]
+            homes = [enclosing_position(gm, ploops, x) for x in apps]
+            okq = bool(apps) and len(apps) == len(touched) and all(h is not None and h[0] is homes[0][0] for h in homes)
+            if okq:
+                ql, qp = homes[0]
+
+                def is_ce(e, n, qp=qp):
+                    return qp.elem_role(seqs, e, n) == "cache"
+                okq = all(qp.elem_role(seqs, x.args[0], gm.nodes(x)[0]) == "input" for x in apps) \
+                    and exactly_on(gm, heads_of(gm, ql), gm.nodes_all(apps), absent_edges(gm, is_ce), present_edges(gm, is_ce)) \
+                    and not iteration_counts(gm, heads_of(gm, ql), gm.nodes_all(apps))[1]
         else:
-            ml = mloops[0]
-            lv = ml.ast.target.id if isinstance(ml.ast.target, ast.Name) else None
-            _one_append_per_iteration(ck, gm, ml, RESG, R1, "merge")
-            uses = [n for n in A.walk_local(ml.ast) if isinstance(n, ast.Subscript) and A.norm(n.value) == QR and isinstance(n.slice, ast.Name)]
-            cursor = uses[0].slice.id if uses else None
-            incs = [s_ for s_ in gm.stmts(ast.AugAssign) if isinstance(s_.target, ast.Name) and s_.target.id == cursor
-                    and isinstance(s_.op, ast.Add) and A.norm(s_.value) == "1"]
-            oki = len(incs) == 1 and QR is not None and CACHE is not None
-            if oki:
-                g_inc = gm.enclosing(incs[0], ast.If)
-                g_use = gm.enclosing(uses[0], ast.If) if uses else None
-                miss_test = g_inc is not None and isinstance(g_inc.test, ast.Compare) and isinstance(g_inc.test.ops[0], ast.Is) \
-                    and A.norm(g_inc.test.comparators[0]) == "None" and gm.xnorm(g_inc.test.left, gm.nodes(g_inc.test)[0]) == "%s[%s]" % (CACHE, lv)
-                oki = bool(uses) and g_inc is g_use and g_inc is not None and incs[0] in g_inc.body and miss_test \
-                    and all(gm.cfg.must_pass(gm.nodes(uses[0]), i) for i in gm.nodes(incs[0]))
-            ck.ob(R1, gm.key(None, "miss-counter"), oki, "the store-result cursor advances exactly on cache misses" if oki else
-                  "the cursor into the store results does not advance exactly once per cache miss: results are attributed to the wrong calls", gm.where())
-            qf = [s_ for s_ in gm.stmts(ast.Assign) if QF is not None and any(isinstance(t, ast.Name) and t.id == QF for t in s_.targets)]
             okq = False
-            if len(qf) == 1 and isinstance(qf[0].value, ast.ListComp) and len(qf[0].value.generators) == 1:
-                g_ = qf[0].value.generators[0]
-                cv = g_.target.id if isinstance(g_.target, ast.Name) else None
-                okq = A.norm(g_.iter) in ("range(0, len(fns))", "range(len(fns))") and [A.norm(c) for c in g_.ifs] == ["%s[%s] is None" % (CACHE, cv)] \
-                    and A.norm(qf[0].value.elt) == "fns[%s]" % cv
-            ck.ob(R1, gm.key(None, "miss-list"), okq, "the store is queried for exactly the cache misses, in order" if okq else
-                  "the list of store queries is not exactly the cache misses in input order", gm.where())
-    return loop, br
+    ck.ob(R1, gm.key(None, "miss-list"), okq, "the store is queried for exactly the cache misses, in order" if okq else
+          "the list of store queries is not exactly the cache misses in input order", gm.where())
 
 
 def check_batch_goes_through_runner(ck, R):
@@ -219,8 +724,18 @@ def check_batch_goes_through_runner(ck, R):
         fa = FA(ck, q)
         runs = fa.nodes_all(fa.calls("memento_run_batch"))
         ck.need(runs, "%s: memento_run_batch call not found" % q)
-        store_calls = [c for c in fa.calls() if isinstance(c.func, ast.Attribute) and (A.dotted(c.func.value) or "").split(".")[0] in ("storage_backend", "storage")
-                       or A.call_attr(c) == "process_existing_memento"]
+
+        def on_store(c):
+            if A.call_attr(c) == "process_existing_memento":
+                return True
+            recv = A.call_recv(c)
+            if recv is None or not fa.nodes(c):
+                return False
+            if (A.dotted(recv) or "").split(".")[0] in ("storage_backend", "storage"):
+                return True
+            # the cluster's store under any local name
+            return any(x == "getattr:storage" or (x.startswith("attr:") and x.endswith(".storage")) for x in fa.deps(recv, fa.nodes(c)[0]))
+        store_calls = [c for c in fa.calls() if isinstance(c.func, ast.Attribute) and on_store(c) or A.call_attr(c) == "process_existing_memento"]
         ck.ob(R, fa.key(None, "no-store-access-in-front-end"), not store_calls,
               "the front end does not consult the store itself" if not store_calls else
               "`%s`: %s consults the store outside the runner, so an element can be answered (or a memoized failure raised) before the elements "
@@ -228,10 +743,170 @@ def check_batch_goes_through_runner(ck, R):
         for r in fa.stmts(ast.Raise):
             if r.exc is None or (isinstance(r.exc, ast.Call) and isinstance(r.exc.func, ast.Name) and r.exc.func.id[:1].isupper()):
                 continue  # argument validation raises a freshly constructed error
+            if not fa.nodes(r):
+                continue
             ok = all(fa.cfg.must_pass(runs, i) for i in fa.nodes(r)) and any(x.startswith("call:memento_run_batch") for x in fa.deps(r.exc))
             ck.ob(R, fa.key(r, "raise-after-run"), ok, "an element's exception is raised only after the whole batch went through the runner" if ok else
                   "`%s` can run before / without memento_run_batch: the exception raised is not the first one of an in-order evaluation"
                   % A.short(r, 50), fa.where(r))
+
+
+# =================================================================================================
+# R3 helpers
+# =================================================================================================
+
+def call_batch_dispatch(cb):
+    """(the memento_run_batch call, the per-element view of the list it is given or None)."""
+    run = cb.one([c for c in cb.calls("memento_run_batch") if cb.nodes(c)], "memento_run_batch call")
+    seqs = Seqs(cb, "kwargs_list")
+    arg = A.arg_or_kw(run, 1, "fn_reference_with_args")
+    elts = per_element(seqs, arg, cb.nodes(run)[0]) if arg is not None else None
+    return run, seqs, arg, elts
+
+
+def _is_run_result(cb, run, e, at):
+    lv = origins(cb, e, at)
+    return bool(lv) and all(x is run for (x, _n) in lv)
+
+
+def _first_exception_ok(cb, run):
+    """Iff raise_first_exception, the first element (in order) of the runner's answer that is an Exception instance
+    is raised: decided on the conditions under which each `raise <element>` is reached, relative to those under
+    which the runner was called."""
+    base_c = cb.conditions(cb.nodes(run)[0])
+    if base_c is None:
+        raise AnalysisError("call_batch: too many paths")
+    base = frozenset.intersection(*base_c) if base_c else frozenset()
+    RFE = ("raise_first_exception", True)
+    for r in cb.stmts(ast.Raise):
+        if not isinstance(r.exc, ast.Name) or not cb.nodes(r):
+            continue
+        at = cb.nodes(r)[0]
+        conds = cb.conditions(r)
+        if conds is None:
+            raise AnalysisError("call_batch: too many paths")
+        extras = {frozenset(c - base) for c in conds}
+        # (a) `for x in <answer>: if isinstance(x, Exception): raise x`
+        ds = cb.df.reaching(at, r.exc.id)
+        if ds and all(d.kind == "for" for d in ds) and len({id(d.stmt) for d in ds}) == 1:
+            lp = ds[0].stmt
+            if isinstance(lp.target, ast.Name) and cb.inside(r, lp) and _is_run_result(cb, run, lp.iter, cb.nodes(lp)[0]) \
+                    and extras == {frozenset({RFE, ("isinstance(%s, Exception)" % r.exc.id, True)})}:
+                # and the scan is not cut short: an iteration ends in this raise or goes on to the next element
+                hs = heads_of(cb, lp)
+                if cb.cfg.exit not in cb.cfg.reach(body_starts(cb, hs), removed=set(hs) | set(cb.nodes(r))):
+                    return True
+        # (b) `x = next((y for y in <answer> if isinstance(y, Exception)), None)`, raised when it is not None
+        lv = origins(cb, r.exc, at)
+        if len(lv) == 1 and isinstance(lv[0][0], ast.Call) and A.call_attr(lv[0][0]) == "next" and len(lv[0][0].args) == 2 \
+                and A.is_none(lv[0][0].args[1]) and isinstance(lv[0][0].args[0], ast.GeneratorExp):
+            g = lv[0][0].args[0]
+            gen = g.generators[0]
+            if len(g.generators) == 1 and isinstance(gen.target, ast.Name) and A.norm(g.elt) == gen.target.id \
+                    and [A.norm(c) for c in gen.ifs] == ["isinstance(%s, Exception)" % gen.target.id] \
+                    and _is_run_result(cb, run, gen.iter, lv[0][1]):
+                x = cb.xnorm(r.exc, at)
+                if extras in ({frozenset({RFE, (x + " is None", False)})}, {frozenset({RFE, (x, True)})}):
+                    return True
+    return False
+
+
+def _range_call_role(mr):
+    """Roles in map_over_range: 'values:<id>' = a list made (once) from the range argument as given;
+    'results:<id>' = call_batch over one single-entry kwargs per element of that list, in order."""
+    RAW = {"next", "iter", "items", "keys", "values"}
+
+    def role(seqs, e, at):
+        if not isinstance(e, ast.Call):
+            return None
+        if isinstance(e.func, ast.Name) and e.func.id == "list" and len(e.args) == 1 and not e.keywords:
+            d = mr.df.deps(e.args[0], at)
+            if "param:kwargs" in d and all(x.split(":", 1)[1] in RAW for x in d if x.startswith("call:")):
+                return "values:%d" % id(e)
+            return None
+        if A.call_attr(e) == "call_batch" and len(e.args) >= 1:
+            elts = per_element(seqs, e.args[0], at)
+            if not elts:
+                return None
+            ids = set()
+            for (x, n, p) in elts:
+                if not (isinstance(x, ast.Dict) and len(x.keys) == 1 and x.keys[0] is not None):
+                    return None
+                r = p.elem_role(seqs, x.values[0], n)
+                if not (r or "").startswith("values:"):
+                    return None
+                ids.add(r.split(":")[1])
+            return "results:%s" % ids.pop() if len(ids) == 1 else None
+        return None
+    return role
+
+
+def _pairing_ok(mr, ret):
+    seqs = Seqs(mr, None, _range_call_role(mr))
+    at = mr.nodes(ret)[0]
+
+    def paired(kr, vr):
+        return bool(kr) and bool(vr) and kr.startswith("values:") and vr == "results:" + kr.split(":")[1]
+
+    lv = origins(mr, ret.value, at)
+    if len(lv) != 1:
+        return False
+    v, vat = lv[0]
+    if isinstance(v, ast.DictComp):
+        if len(v.generators) != 1 or v.generators[0].ifs:
+            return False
+        p = pos_iter(seqs, v.generators[0].target, v.generators[0].iter, vat)
+        return p is not None and paired(p.elem_role(seqs, v.key, vat), p.elem_role(seqs, v.value, vat))
+    if isinstance(v, ast.Call) and isinstance(v.func, ast.Name) and v.func.id == "dict" and len(v.args) == 1 and not v.keywords \
+            and isinstance(v.args[0], ast.Call) and A.call_attr(v.args[0]) == "zip" and len(v.args[0].args) == 2:
+        z = v.args[0]
+        return paired(seqs.role(z.args[0], vat), seqs.role(z.args[1], vat))
+    if isinstance(v, ast.Dict) and not v.keys and isinstance(ret.value, ast.Name):
+        # an empty dict filled by one `d[value] = result` per position
+        name = ret.value.id
+        if len(all_defs(mr, name)) != 1:
+            return False
+        if any(A.dotted(A.call_recv(c)) == name for c in mr.calls()) or any(
+                isinstance(t, ast.Subscript) and A.dotted(t.value) == name for s in mr.stmts(ast.Delete) for t in s.targets):
+            return False
+        sets = [(s, t) for s in mr.stmts((ast.Assign, ast.AugAssign)) for t in (s.targets if isinstance(s, ast.Assign) else [s.target])
+                if isinstance(t, ast.Subscript) and A.dotted(t.value) == name and mr.nodes(s)]
+        loops = position_loops(mr, seqs)
+        homes = [enclosing_position(mr, loops, s) for (s, t) in sets]
+        if not sets or any(isinstance(s, ast.AugAssign) for (s, t) in sets) or any(h is None or h[0] is not homes[0][0] for h in homes):
+            return False
+        lp, p = homes[0]
+        if mr.enclosing(lp, (ast.For, ast.While)) is not None or mr.inside(ret, lp):
+            return False
+        skip, twice = iteration_counts(mr, heads_of(mr, lp), mr.nodes_all([s for (s, t) in sets]))
+        return not skip and not twice and all(paired(p.elem_role(seqs, t.slice, mr.nodes(s)[0]), p.elem_role(seqs, s.value, mr.nodes(s)[0])) for (s, t) in sets)
+    return False
+
+
+def is_valid_flag(fa, e, at, _depth=0):
+    """Does `e` hold the `valid_result` verdict of an ExistingMementoResult (field read, or the second component
+    of one unpacked into two names)?"""
+    if isinstance(e, ast.Attribute):
+        return e.attr == "valid_result"
+    if isinstance(e, ast.Subscript) and isinstance(e.slice, ast.Constant) and e.slice.value == 1:
+        return all(isinstance(x, ast.Call) and A.call_attr(x) in ("process_existing_memento", "ExistingMementoResult") for (x, _n) in origins(fa, e.value, at))
+    if isinstance(e, ast.Name) and _depth < 6:
+        ds = fa.df.reaching(at, e.id)
+        if not ds:
+            return False
+        for d in ds:
+            if d.kind == "assign" and d.value is not None:
+                if not is_valid_flag(fa, d.value, d.node, _depth + 1):
+                    return False
+            elif d.kind == "unpack" and isinstance(d.stmt, ast.Assign) and len(d.stmt.targets) == 1 and isinstance(d.stmt.targets[0], ast.Tuple) \
+                    and len(d.stmt.targets[0].elts) == 2 and A.norm(d.stmt.targets[0].elts[1]) == e.id:
+                lv = origins(fa, d.value, d.node)
+                if not (lv and all(isinstance(x, ast.Call) and A.call_attr(x) in ("process_existing_memento", "ExistingMementoResult") for (x, _n) in lv)):
+                    return False
+            else:
+                return False
+        return True
+    return False
 
 
 def check(ck):
@@ -246,116 +921,89 @@ def check(ck):
                 "pairs values and results by the same index", 4)
     ck.rule(R4, "an element without a valid served result goes through memento_run_local", 1)
 
-    loop, br = check_slots(ck, R1)
-    if loop is None:
+    ctx, br = check_slots(ck, R1)
+    ck.run(_check_front_end, ck, R3)
+    if ctx is None:
         return
+    ck.run(_check_alignment, ck, R2, R4, ctx, br)
+    ck.run(check_typed_identity, ck, "C15.R5", ("base", "runner_local"))
 
+
+def _check_alignment(ck, R2, R4, ctx, br):
+    loop, loop_ast, pit, seqs = ctx
+    heads = heads_of(br, loop_ast)
     # ---- R2
-    pre = br.one([c for c in br.calls("get_mementos")], "bulk get_mementos call")
+    pre = br.one([c for c in br.calls("get_mementos") if br.nodes(c)], "bulk get_mementos call")
     arg = pre.args[0] if pre.args else None
-    ok2 = isinstance(arg, ast.ListComp) and len(arg.generators) == 1 and not arg.generators[0].ifs \
-        and A.norm(arg.generators[0].iter) == "fn_reference_with_args" and A.norm(arg.elt) == "%s.fn_reference_with_arg_hash()" % A.norm(arg.generators[0].target)
+    ok2 = arg is not None and precheck_elements_ok(seqs, arg, br.nodes(pre)[0])
     ck.ob(R2, br.key(pre, "precheck-sequence"), ok2, "pre-check covers every element, in input order" if ok2 else
           "the bulk pre-check is not a plain comprehension over the input sequence (filtered, sorted or reordered)", br.where(pre))
-    it = loop.ast.iter
-    seq = it.args[0] if isinstance(it, ast.Call) and it.args else None
-    src = set()
-    if seq is not None:
-        for i in [loop.id]:
-            ch = br.df.deps(seq, i)
-            src = ch
+    src = br.df.deps(loop_ast.iter, loop.id)
     ok3 = "param:fn_reference_with_args" in src and not any(d in src for d in ("call:sorted", "call:reversed", "call:set", "call:filter"))
-    ck.ob(R2, br.key(loop.ast, "loop-sequence"), ok3, "the loop enumerates the input sequence (optionally wrapped for progress display)" if ok3 else
-          "the loop does not enumerate the input sequence in order", br.where(loop.ast))
-    idx = loop.ast.target.elts[0].id if isinstance(loop.ast.target, ast.Tuple) else None
-    pst = br.stmt_of(pre)
-    EM = pst.targets[0].id if isinstance(pst, ast.Assign) and isinstance(pst.targets[0], ast.Name) and pst.value is pre else None  # the bulk answer
-    subs = [n for n in A.walk_local(loop.ast) if isinstance(n, ast.Subscript) and EM is not None and A.norm(n.value) == EM]
-    ok4 = bool(subs) and all(A.norm(s.slice) == idx for s in subs)
-    ck.ob(R2, br.key(loop.ast, "indexing"), ok4, "existing mementos are read at the loop index" if ok4 else
-          "existing mementos are not indexed with the loop index", br.where(loop.ast))
-    emr = [c for c in br.calls("process_existing_memento")]
-    ok5 = bool(emr) and idx is not None and all(len(c.args) >= 2 and br.xnorm(c.args[1], br.nodes(c)[0]).startswith("storage_backend.get_mementos(")
-                                                and br.xnorm(c.args[1], br.nodes(c)[0]).endswith(")[%s]" % idx) for c in emr)
+    ck.ob(R2, br.key(loop_ast, "loop-sequence"), ok3, "the loop enumerates the input sequence (optionally wrapped for progress display)" if ok3 else
+          "the loop does not enumerate the input sequence in order", br.where(loop_ast))
+
+    def is_bulk(e, at):
+        lv = origins(br, e, at)
+        return bool(lv) and all(x is pre for (x, _n) in lv)
+    subs = [n for n in A.walk_local(loop_ast) if isinstance(n, ast.Subscript) and isinstance(n.ctx, ast.Load) and br.nodes(n) and is_bulk(n.value, br.nodes(n)[0])]
+    ok4 = all(pit.elem_role(seqs, s, br.nodes(s)[0]) == "bulk" for s in subs) and (bool(subs) or "bulk" in pit.elems.values())
+    ck.ob(R2, br.key(loop_ast, "indexing"), ok4, "existing mementos are read at the loop index" if ok4 else
+          "existing mementos are not indexed with the loop index", br.where(loop_ast))
+    emr = [c for c in br.calls("process_existing_memento") if br.nodes(c)]
+    ok5 = bool(emr) and all(A.arg_or_kw(c, 1, "existing_memento") is not None
+                            and pit.elem_role(seqs, A.arg_or_kw(c, 1, "existing_memento"), br.nodes(c)[0]) == "bulk" and br.inside(c, loop_ast) for c in emr)
     ck.ob(R2, br.key(None, "served-from-own-memento"), ok5, "an element is served from its own memento" if ok5 else
           "process_existing_memento is not given the element's own memento", br.where())
 
-    # ---- R3
-    cb = FA(ck, "base.MementoFunctionBase.call_batch")
-    fns = [s for s in cb.stmts(ast.Assign) if isinstance(s.value, ast.ListComp) and any(A.call_attr(c) == "FunctionReferenceWithArguments" for c in A.calls_in(s.value))]
-    ok6 = len(fns) == 1 and A.norm(fns[0].value.generators[0].iter) == "kwargs_list" and not fns[0].value.generators[0].ifs
-    if ok6:
-        ctor = [c for c in A.calls_in(fns[0].value) if A.call_attr(c) == "FunctionReferenceWithArguments"][0]
-        kw = A.kwarg(ctor, "kwargs") or (ctor.args[2] if len(ctor.args) > 2 else None)
-        ok6 = kw is not None and A.norm(kw) == A.norm(fns[0].value.generators[0].target)
-    ck.ob(R3, cb.key(fns[0] if fns else None, "refs-in-order"), ok6, "one reference per kwargs, in order" if ok6 else
-          "call_batch does not build exactly one reference per kwargs in input order", cb.where())
-    run = cb.one(cb.calls("memento_run_batch"), "memento_run_batch call")
-    okb = A.kwarg(run, "fn_reference_with_args") is not None and A.norm(A.kwarg(run, "fn_reference_with_args")) == (A.norm(fns[0].targets[0]) if fns else "")
-    ck.ob(R3, cb.key(run, "dispatch"), okb, "the whole list is dispatched as one batch" if okb else
-          "call_batch does not dispatch the list it built", cb.where(run))
-    raises = [r for r in cb.stmts(ast.Raise) if r.exc is not None and isinstance(r.exc, ast.Name)]
-    ok7 = False
-    for r in raises:
-        lp = cb.enclosing(r, ast.For)
-        g = cb.enclosing(r, ast.If)
-        outer = cb.enclosing(lp, ast.If) if lp is not None else None
-        if lp is not None and cb.xnorm(lp.iter, cb.nodes(lp)[0]).startswith("memento_run_batch(") and g is not None and A.norm(g.test) == "isinstance(%s, Exception)" % r.exc.id \
-                and A.norm(lp.target) == r.exc.id \
-                and outer is not None and A.norm(outer.test) == "raise_first_exception":
-            ok7 = True
-    ck.ob(R3, cb.key(None, "first-exception"), ok7, "with raise_first_exception the first exception in input order is raised" if ok7 else
-          "call_batch does not raise the first exception (in input order) iff raise_first_exception", cb.where())
-    rv = cb.returns()
-    ok8 = bool(rv) and all(r.value is not None and cb.xnorm(r.value).startswith("memento_run_batch(") for r in rv)
-    ck.ob(R3, cb.key(None, "returns-batch-result"), ok8, "the batch result list is returned as is" if ok8 else
-          "call_batch does not return the runner's result list unchanged", cb.where())
-    mr = FA(ck, "base.MementoFunctionBase.map_over_range")
-    ret = mr.one(mr.returns(), "return")
-    ok9 = False
-    if isinstance(ret.value, ast.DictComp) and len(ret.value.generators) == 1 and isinstance(ret.value.generators[0].target, ast.Name) \
-            and isinstance(ret.value.key, ast.Subscript) and isinstance(ret.value.value, ast.Subscript) \
-            and isinstance(ret.value.key.value, ast.Name) and isinstance(ret.value.value.value, ast.Name):
-        iv = ret.value.generators[0].target.id
-        VL, RL_ = ret.value.key.value.id, ret.value.value.value.id   # the evaluated values / their results
-        at = mr.nodes(ret)[0]
-        ok9 = A.norm(ret.value.key.slice) == iv and A.norm(ret.value.value.slice) == iv and not ret.value.generators[0].ifs \
-            and A.norm(ret.value.generators[0].iter) in ("range(0, len(%s))" % VL, "range(len(%s))" % VL)
-        # RL_ is call_batch(<one kwargs per element of VL, in order>), VL a list made once from the input
-        rd = mr.df.reaching(at, RL_)
-        vd = mr.df.reaching(at, VL)
-        ok9 = ok9 and len(rd) == 1 and isinstance(rd[0].value, ast.Call) and A.call_attr(rd[0].value) == "call_batch" and len(vd) == 1 \
-            and isinstance(vd[0].value, ast.Call) and A.norm(vd[0].value.func) == "list"
-        if ok9:
-            arg = rd[0].value.args[0] if rd[0].value.args else None
-            te = mr.df.reaching(rd[0].node, arg.id) if isinstance(arg, ast.Name) else []
-            lc = te[0].value if len(te) == 1 else arg
-            ok9 = isinstance(lc, ast.ListComp) and len(lc.generators) == 1 and A.norm(lc.generators[0].iter) == VL and not lc.generators[0].ifs
-    ck.ob(R3, mr.key(None, "pairing"), ok9, "values and results are paired by the same index" if ok9 else
-          "map_over_range does not pair value_list[i] with result_list[i] for the list it evaluated", mr.where(ret))
-
-    # ---- R4
-    runs = br.calls("memento_run_local")
-    vt = [n.id for n in br.cfg.nodes if n.kind == "test" and A.norm(n.ast).endswith(".valid_result")]
-    # on the not-valid edge every path to the next iteration passes memento_run_local
-    ok10 = bool(runs) and bool(vt)
+    # ---- R4: within one iteration, every path to the next element either established that the served result is
+    # valid or passes memento_run_local
+    runs = [c for c in br.calls("memento_run_local") if br.nodes(c)]
+    valid_edges = edges_implying(br, lambda k, e, b, n: k == "truth" and b and is_valid_flag(br, e, n))
+    ok10 = bool(runs) and bool(valid_edges)
     if ok10:
-        rn = set(br.nodes_all(runs))
-        for t in vt:
-            starts = [d for (d, l) in br.cfg.succ[t] if l == "F"]
-            live = br.cfg.reach(starts, removed=rn)
-            if loop.id in live:
-                ok10 = False
-    ck.ob(R4, br.key(loop.ast, "not-served-runs"), ok10, "a non-served element runs through memento_run_local (per-call mutex, re-check)" if ok10 else
-          "an element without a valid served result can skip memento_run_local", br.where(loop.ast))
+        live = br.cfg.reach(body_starts(br, heads), removed=set(br.nodes_all(runs)), edge_ok=not_edges(valid_edges))
+        ok10 = not (set(heads) & live)
+        ck.paths_enumerated += 1
+    ck.ob(R4, br.key(loop_ast, "not-served-runs"), ok10, "a non-served element runs through memento_run_local (per-call mutex, re-check)" if ok10 else
+          "an element without a valid served result can skip memento_run_local", br.where(loop_ast))
     rl = FA(ck, RL + ".memento_run_local")
-    lk = rl.calls("get_memento")
+    lk = [c for c in rl.calls("get_memento") if rl.nodes(c)]
     okl = bool(lk) and all(rl.unconditional(c) for c in lk) and all(rl.cfg.must_pass(rl.nodes_all(lk), i) for i in rl.nodes_all(rl.calls("_filter_call")))
     ck.ob(R4, rl.key(None, "recheck-unconditional"), okl, "memento_run_local looks the call up again, unconditionally, before running the body" if okl else
           "memento_run_local can skip its own store lookup (it trusts an earlier bulk query): an element memoized by an earlier element of the "
           "same batch (duplicate, or a callee) runs its body again", rl.where(lk[0] if lk else None))
     for c in runs:
-        okc = A.kwarg(c, "fn_reference_with_args") is not None and A.norm(A.kwarg(c, "fn_reference_with_args")) == A.norm(loop.ast.target.elts[1])
+        a = A.arg_or_kw(c, 1, "fn_reference_with_args")
+        okc = a is not None and br.inside(c, loop_ast) and pit.elem_role(seqs, a, br.nodes(c)[0]) == "input"
         ck.ob(R4, br.key(c, "element"), okc, "memento_run_local receives the loop element" if okc else
               "memento_run_local is not called with the current element", br.where(c))
-    ck.run(check_typed_identity, ck, "C15.R5", ("base", "runner_local"))
+
+
+def _check_front_end(ck, R3):
+    cb = FA(ck, "base.MementoFunctionBase.call_batch")
+    run, seqs, arg, elts = call_batch_dispatch(cb)
+
+    def is_ref(x, n, p):
+        if not (isinstance(x, ast.Call) and A.call_attr(x) == "FunctionReferenceWithArguments"):
+            return False
+        kw = A.arg_or_kw(x, 2, "kwargs")
+        return kw is not None and p.elem_role(seqs, kw, n) == "input"
+    ok6 = bool(elts) and all(is_ref(x, n, p) for (x, n, p) in elts)
+    ck.ob(R3, cb.key(None, "refs-in-order"), ok6, "one reference per kwargs, in order" if ok6 else
+          "call_batch does not build exactly one reference per kwargs in input order", cb.where())
+    okb = bool(elts)
+    ck.ob(R3, cb.key(run, "dispatch"), okb, "the whole list is dispatched as one batch" if okb else
+          "call_batch does not dispatch the list it built", cb.where(run))
+    ok7 = _first_exception_ok(cb, run)
+    ck.ob(R3, cb.key(None, "first-exception"), ok7, "with raise_first_exception the first exception in input order is raised" if ok7 else
+          "call_batch does not raise the first exception (in input order) iff raise_first_exception", cb.where())
+    rv = [r for r in cb.returns() if cb.nodes(r)]
+    ok8 = bool(rv) and all(r.value is not None and _is_run_result(cb, run, r.value, cb.nodes(r)[0]) for r in rv)
+    ck.ob(R3, cb.key(None, "returns-batch-result"), ok8, "the batch result list is returned as is" if ok8 else
+          "call_batch does not return the runner's result list unchanged", cb.where())
+    mr = FA(ck, "base.MementoFunctionBase.map_over_range")
+    ret = mr.one([r for r in mr.returns() if mr.nodes(r)], "return")
+    ok9 = ret.value is not None and _pairing_ok(mr, ret)
+    ck.ob(R3, mr.key(None, "pairing"), ok9, "values and results are paired by the same index" if ok9 else
+          "map_over_range does not pair value_list[i] with result_list[i] for the list it evaluated", mr.where(ret))
